@@ -18,6 +18,7 @@ import (
 	"github.com/privacybydesign/gabi/big"
 	"github.com/privacybydesign/gabi/gabikeys"
 	"github.com/privacybydesign/gabi/internal/verif/vkit"
+	"github.com/privacybydesign/gabi/rangeproof"
 )
 
 type c07Item struct {
@@ -277,17 +278,19 @@ func TestVerifC07Volume(t *testing.T) {
 	defer r.Finish()
 	N := vkit.Pick(2048, 16384)
 	r.Bounds["proofs_per_credential"] = N
-	r.Rule = fmt.Sprintf("one credential with a witness (toy key), %d proofs in a row per kind {disclosure without / with non-revocation part (cache never prepared), randomised signature alone, issuance commitment of a fresh builder, keyshare secret + commitment, proof randomisers}; non-trivial = distinct proof; oracle over all pairs (linear-time set membership): A, C_r, C_u never repeat, implied randomisers of every hidden attribute, the secret key and the exponent pairwise distinct", N)
+	r.Rule = fmt.Sprintf("one credential with a witness (toy key), %d proofs in a row per kind {disclosure without / with non-revocation part (cache never prepared), randomised signature alone, issuance commitment of a fresh builder, keyshare secret + commitment, proof randomisers, disclosure with a range statement requested with one and the same Statement object}; non-trivial = distinct proof; oracle over all pairs (linear-time set membership): A, C_r, C_u never repeat, implied randomisers of every hidden attribute, the secret key and the exponent pairwise distinct", N)
 	kA := vfK("toyB")
 	pks := map[string]*gabikeys.PublicKey{"A": kA.Pk}
 	vfInstallEnv(t, "C07/volume", r.Seed)
 	secret := vfTag("c07-secret")
-	for _, kind := range []string{"prove-plain", "prove-nonrev", "randomize", "issuance-commit", "keyshare-commitments", "proof-randomizers"} {
+	for _, kind := range []string{"prove-plain", "prove-nonrev", "randomize", "issuance-commit", "keyshare-commitments", "proof-randomizers", "prove-range-one-statement-object"} {
 		if _, mine := r.Next(); !mine {
 			continue
 		}
 		w := c11NewWorld(kA)
 		credA := w.issue(secret, []*big.Int{vfTag("c07-a1"), vfTag("c07-a2")}, 3)
+		credL := vfMint(kA, secret, []*big.Int{vfTag("c07-l1"), vfInt(1000)}, 5)
+		var c07Stmt *rangeproof.Statement
 		var items []c07Item
 		seenA := map[string]int{}
 		n := N
@@ -300,6 +303,36 @@ func TestVerifC07Volume(t *testing.T) {
 			}
 			r.Eval()
 			r.Nontrivial(fmt.Sprintf("%s #%d", kind, i))
+			if kind == "prove-range-one-statement-object" {
+				// every proof is requested with the SAME Statement object: what a proof structure keeps from one
+				// proof must not be handed to the next
+				if i >= n/8 {
+					break
+				}
+				if c07Stmt == nil {
+					c07Stmt, _ = rangeproof.NewStatement(rangeproof.GreaterOrEqual, vfInt(5))
+				}
+				p, err := credL.CreateDisclosureProof([]int{1}, map[int][]*rangeproof.Statement{2: {c07Stmt}}, false, vfContext, vfNonce)
+				if err != nil {
+					r.Violate("C07|proof-not-created", err.Error(), kind)
+					return
+				}
+				if !vsCloneProof(p).(*ProofD).Verify(kA.Pk, vfContext, vfNonce, false) {
+					r.Violate("C07|proof-invalid|range-proof-from-a-reused-statement-object", fmt.Sprintf("proof %d requested with a Statement object used before does not verify", i), kind)
+					break
+				}
+				for ci, c := range p.RangeProofs[2][0].Cs {
+					key := fmt.Sprintf("range C_%d|%s", ci, c.String())
+					if j, dup := seenA[key]; dup {
+						r.Violate("C07|repeated-range-commitment|one-statement-object", fmt.Sprintf("proofs %d and %d requested with one Statement object carry the same range-proof commitment C_%d: the two-transcript extractor recovers the hidden attribute", j, i, ci), kind)
+						break
+					}
+					seenA[key] = i
+				}
+				c07E[p] = credL.Signature.E
+				items = append(items, c07Item{op: kind, list: 1000 + i, cred: "A", d: p, attrs: credL.Attributes})
+				continue
+			}
 			if kind == "issuance-commit" {
 				cb, err := NewCredentialBuilder(kA.Pk, vfContext, secret, vsNonce2, nil, nil)
 				var msg *IssueCommitmentMessage
